@@ -12,7 +12,7 @@
 (* partial: outside the domain the properties quantify over the slot is     *)
 (* Unspec and only C01 (some slot, no panic) applies.                       *)
 (***************************************************************************)
-EXTENDS Env
+EXTENDS Env, Duration, TLC
 
 ArithMeaning(toks) ==
   IF DateLike(toks) THEN Unspec
@@ -36,6 +36,10 @@ LineMeaning(ctx, line) ==
           env  |-> IF IsValue(m.slot) THEN Bind(ctx.env, line.name, m.slot)
                    ELSE IF m.slot.k = "unspec" THEN Bind(ctx.env, line.name, Unspec)
                    ELSE ctx.env]
+    [] line.form = "dur_lit"   -> [slot |-> SumParts(line.parts), env |-> ctx.env]
+    [] line.form = "dur_arith" -> [slot |-> IF line.op = "+" THEN DurAdd(SumParts(line.a), SumParts(line.b))
+                                            ELSE DurSub(SumParts(line.a), SumParts(line.b)), env |-> ctx.env]
+    [] line.form = "dur_as"    -> [slot |-> DurAs(SumParts(line.parts), line.target), env |-> ctx.env]
     [] line.form = "shape"   -> [slot |-> Unspec, env |-> ctx.env]
     [] OTHER                 -> [slot |-> Unspec, env |-> ctx.env]
 
@@ -63,5 +67,8 @@ RunLines(ctx, lines, acc) ==
        IN  RunLines([ctx EXCEPT !.env = m.env], Tail(lines), Append(acc, m.slot))
 
 \* agreement of an observed slot with a specified one, including the "expected to fail" marker
-SlotMatches(exp, obs) == IF exp.k = "fails" THEN obs.k \in SlotKinds ELSE Matches(exp, obs)
+\* the printed form of a value, where a property speaks about it (C10: the parts of a duration)
+PrintMatches(exp, obs) == (exp.k = "dur" /\ Has(obs, "parts")) => obs.parts = DurParts(exp)
+WithPrint(v) == IF v.k = "dur" THEN v @@ [parts |-> DurParts(v)] ELSE v
+SlotMatches(exp, obs) == IF exp.k = "fails" THEN obs.k \in SlotKinds ELSE Matches(exp, obs) /\ PrintMatches(exp, obs)
 =============================================================================
